@@ -110,4 +110,17 @@ theorem lookup_by_type_shares_a_node :
     staticNodeByType [s0, s0] 0 = staticNodeByType [s0, s0] 1 ∧ staticNode false [s0, s0] 0 ≠ staticNode false [s0, s0] 1 := by
   decide
 
+/-- not consuming the target tuple is wrong as soon as the shared inputs have two types: in the pack
+    (Shared<X>, Shared<Y>, Shared<Y>) the two `Y` inputs get the same slot (0, 1, 1 instead of 0, 1, 2) — while packs of one
+    shared type and alternating unique / shared packs still come out right -/
+theorem no_consume_shares_a_slot :
+    let x : CoreTy := ⟨true, 0⟩
+    let y : CoreTy := ⟨true, 1⟩
+    let u : CoreTy := ⟨false, 0⟩
+    translateIndexNoConsume 1 0 [x, y, y] (sharedCores [x, y, y]) = translateIndexNoConsume 2 0 [x, y, y] (sharedCores [x, y, y]) ∧
+    translateIndex 1 0 [x, y, y] (sharedCores [x, y, y]) ≠ translateIndex 2 0 [x, y, y] (sharedCores [x, y, y]) ∧
+    translateIndexNoConsume 2 0 [x, x, x] (sharedCores [x, x, x]) = 2 ∧
+    translateIndexNoConsume 3 0 [u, x, u, x] (sharedCores [u, x, u, x]) = 1 := by
+  decide
+
 end Yaclib.When.Nodes
